@@ -585,6 +585,17 @@ func checkScalar(c scalarCase) (h.Info, error) {
 	if wantInv != (err != nil) || (err != nil && !errors.Is(err, slip10.ErrInvalidKey)) {
 		return info, fmt.Errorf("private Shift on %s, k=%x, I_L=%x [%s]: err=%v; SLIP-0010: invalid iff I_L >= n or I_L + k = 0 mod n (invalid=%v), reported as ErrInvalidKey so that derivation retries", c.Curve, k, b, c.Corner, err, wantInv)
 	}
+	// the public side of the same step (public parent key -> public child key): point(I_L) + K_par, invalid
+	// iff I_L >= n or the sum is the point at infinity
+	pchild, perr := key.Public().Shift(append([]byte{}, c.Shift...))
+	if wantInv != (perr != nil) || (perr != nil && !errors.Is(perr, slip10.ErrInvalidKey)) {
+		return info, fmt.Errorf("public Shift on %s, K = k*G with k=%x, I_L=%x [%s]: err=%v; SLIP-0010: invalid iff I_L >= n or point(I_L) + K is the point at infinity (invalid=%v), reported as ErrInvalidKey so that derivation retries", c.Curve, k, b, c.Corner, perr, wantInv)
+	}
+	if !wantInv {
+		if want := rc.Compressed(rc.BaseMul(sum)); !bytes.Equal(pchild.Bytes(), want) {
+			return info, fmt.Errorf("public Shift on %s, K = k*G with k=%x, I_L=%x [%s]: child %x, reference point(I_L) + K = %x", c.Curve, k, b, c.Corner, pchild.Bytes(), want)
+		}
+	}
 	if wantInv {
 		return info, nil
 	}
@@ -647,7 +658,7 @@ func TestScalars(t *testing.T) {
 		},
 		Check:   checkScalar,
 		Require: []string{"scalar/n-k", "scalar/invalid-key", "scalar/n", "scalar/sum-in-[n,2^256)", "scalar/random"},
-		Rule:    "the scalar arithmetic CKD relies on, through the curves' own NewPrivateKey / Key.Shift: k valid iff 0 < k < n; private Shift by I_L invalid (ErrInvalidKey) iff I_L >= n or I_L + k = 0 mod n, else (I_L + k mod n) and its point; I_L at 0, n-k, n-k+-1, n, n+-1, 2^256-1, k, sums in [n, 2^256), random; reference: affine big-integer curve; all non-trivial",
+		Rule:    "the scalar arithmetic CKD relies on, through the curves' own NewPrivateKey / Key.Shift: k valid iff 0 < k < n; private Shift by I_L invalid (ErrInvalidKey) iff I_L >= n or I_L + k = 0 mod n, else (I_L + k mod n) and its point; the public Shift of k*G by the same I_L agrees (invalid together, else the compressed point (I_L + k)*G, which includes point(I_L) = K: doubling); I_L at 0, n-k, n-k+-1, n, n+-1, 2^256-1, k, sums in [n, 2^256), random; reference: affine big-integer curve; all non-trivial",
 	})
 }
 
